@@ -2,6 +2,7 @@ import TT.Driver.C03
 import TT.Driver.C04
 import TT.Driver.C06
 import TT.Driver.C11
+import TT.Driver.C12
 /-
 Line-protocol driver: one query per input line, one answer per output line.
 `<suite> <op> <args...>`; unknown queries answer `bad-op` (never a default value).
@@ -14,6 +15,7 @@ def answer (line : String) : String :=
   | "c04" :: rest => c04 rest
   | "c06" :: rest => c06 rest
   | "c11" :: rest => c11 rest
+  | "c12" :: rest => c12 rest
   | _ => "bad-op"
 
 partial def loop (h : IO.FS.Stream) (out : IO.FS.Stream) : IO Unit := do
